@@ -315,7 +315,7 @@ Proof.
   intros st l st' Hl Hin H.
   vm_compute in Hin.
   repeat (destruct Hin as [<-|Hin]; [
-    destruct l; try congruence; try (destruct w as [|w]); vm_compute in H; try discriminate;
+    destruct l; try (exfalso; apply Hl; reflexivity); try (destruct w as [|w]); vm_compute in H; try discriminate;
     try (inversion H; subst st'; in_dead_set) |]).
   contradiction.
 Qed.
@@ -344,13 +344,16 @@ Theorem n2_deadlock :
   (forall ls st' l st'', ~ In CBail ls -> run P2 n2_dead ls = Some st' -> step P2 st' l = Some st'' -> is_progress l = false).
 Proof.
   assert (Hclosed : forall ls st st', ~ In CBail ls -> In st n2_dead_set -> run P2 st ls = Some st' -> In st' n2_dead_set).
-  { induction ls; simpl; intros st st' Hb Hin H.
-    - inversion H; subst; exact Hin.
-    - destruct (step P2 st a) eqn:E; [|discriminate]. apply IHls with (st := s); auto.
-      apply n2_closed with (st := st) (l := a); auto. }
+  { induction ls as [|a ls IH]; intros st st' Hb Hin H.
+    - cbn [run] in H. inversion H; subst; exact Hin.
+    - cbn [run] in H. destruct (step P2 st a) eqn:E; [|discriminate].
+      apply not_in_cons in Hb. destruct Hb as [Hb1 Hb2].
+      apply IH with (st := s); [exact Hb2| |exact H].
+      apply n2_closed with (st := st) (l := a); [congruence|exact Hin|exact E]. }
   assert (Hd : In n2_dead n2_dead_set) by (left; vm_compute; reflexivity).
   split; [apply reachable_run with (st := init P2) (ls := n2_trace); [apply reach_init|apply n2_reached]|].
-  destruct n2_all_blocked as (A & B & C & _). repeat split; auto.
+  destruct n2_all_blocked as (A & B & C & _).
+  split; [exact A|]. split; [exact B|]. split; [exact C|]. split.
   - intros ls st' Hb H. apply n2_dead_not_final. eapply Hclosed; eauto.
   - intros ls st' l st'' Hb H Hs. eapply n2_only_waits; [|exact Hs]. eapply Hclosed; eauto.
 Qed.
